@@ -18,7 +18,7 @@ import (
 // gen: harness/profgen extracts the control skeletons of sdf/poly.go and sdf/bezier.go
 // (nextVertex, prevVertex, the createArcs / smoothVertices loops, fixups, the endpoint/midpoint
 // loop of Bezier.Polygon) into coq/Generated/ProfSkel.v; coq/Sdf/ProfEq.v proves them equal to the model.
-func main() { Main("C17", check, profgen.Gen, stateGen) }
+func main() { Main("C17", check, stateGen, profgen.Gen) }
 
 const imp = "From Sdfx Require Import Num.Ops Num.FInst Sdf.Build Sdf.Bezier Sdf.C17Corr.\nOpen Scope float_scope."
 const imph = "From Sdfx Require Import Num.Ops Num.FInst Sdf.Build Sdf.Bezier Sdf.C17Corr Sdf.C17Hist.\nOpen Scope float_scope."
